@@ -493,7 +493,7 @@ class WP:
             for v in inner:
                 if v['kind'] in ('StaticAssertDecl', 'TypeAliasDecl', 'TypedefDecl', 'UsingDecl'):
                     continue
-                if v['kind'] != 'VarDecl':
+                if v['kind'] not in ('VarDecl', 'DecompositionDecl'):
                     raise Unsupported('declaration ' + v['kind'])
                 init = [x for x in v.get('inner', []) if x.get('kind') != 'FullComment']
                 handled = False
@@ -503,6 +503,8 @@ class WP:
                         break
                 if handled:
                     continue
+                if v['kind'] != 'VarDecl':      # structured bindings exist only through a spec's declaration hook
+                    raise Unsupported('declaration ' + v['kind'])
                 s, c = self.sort_of(v['type'])
                 if init:
                     val = self.conv(self.ev(init[0]), s, c, v)
